@@ -1,19 +1,83 @@
+(** * Props/C14.v — Pool submission and lookup honour their documented contracts.
+    Only the property theorems; each is closed by [exact] and followed by Print Assumptions.
+    All statements are about the pool model [Chain/Pool.v] (the repaired code) that the
+    harness validates against the real chain.Manager after every call; they quantify over
+    every history [ops] of submissions, block steps and queries from an empty pool
+    ([nrun mw L0 ops]).  The aliasing clauses of the property (caller memory neither
+    modified nor retained, returned values independent of the pool) are facts about Go
+    memory and are checked by the harness monitors only: partial. *)
 From Coq Require Import NArith List.
 From stdpp Require Import gmap.
 From CV Require Import Chain.Pool Chain.PoolProofs.
-Theorem C14_lookup_exact : ∀ mw L0 ops id,
-  let s := nrun mw L0 ops in
-  (match lookup_v1 s.1 mw s.2 id with
-   | LFound t => t ∈ pool_transactions s.1 mw s.2 ∧ a_id t = id ∧ a_v2 t = false ∧
-                 ∀ t', t' ∈ reported mw s → a_id t' = id → t' = t
-   | LAbsent => ∀ t, t ∈ pool_transactions s.1 mw s.2 → a_id t ≠ id
-   | LPanic => False
-   end) ∧
-  (match lookup_v2 s.1 mw s.2 id with
-   | LFound t => t ∈ v2_pool_transactions s.1 mw s.2 ∧ a_id t = id ∧ a_v2 t = true ∧
-                 ∀ t', t' ∈ reported mw s → a_id t' = id → t' = t
-   | LAbsent => ∀ t, t ∈ v2_pool_transactions s.1 mw s.2 → a_id t ≠ id
-   | LPanic => False
-   end).
+Import ListNotations.
+Open Scope N_scope.
+
+(** A submission (v1: [k = false], v2: [k = true], the set already rebased to the tip) either
+    extends the pool of the revalidated state [q] by exactly its not-yet-known members
+    ([new_members]: in set order, each id once) — and then that is what the next query
+    reports unless the pool is full — or leaves both lists as they were. *)
+Theorem C14_add_all_or_none :
+  ∀ mw L0 ops k set p' v,
+    let s := nrun mw L0 ops in
+    let q := revalidate s.1 mw s.2 in
+    add_k k s.1 mw s.2 set = (p', v) →
+    (v = VAdded ∧
+     let news := new_members (list_to_set (map a_id (txns q ++ v2txns q))) set in
+     txns p' = txns q ++ (if k then [] else news) ∧ v2txns p' = v2txns q ++ (if k then news else []) ∧
+     (weight p' < mw * 10 → revalidate s.1 mw p' = p')) ∨
+    (v ≠ VAdded ∧ txns p' = txns q ∧ v2txns p' = v2txns q).
+Proof. exact add_all_or_none. Qed.
+Print Assumptions C14_add_all_or_none.
+
+(** "known" is reported exactly when the set passes validation against the tip on its own
+    ([set_ok]) and every member is already pooled (DESIGN 4a; the empty set is vacuously
+    known). *)
+Theorem C14_known_iff_all_pooled :
+  ∀ mw L0 ops k set p' v,
+    let s := nrun mw L0 ops in
+    add_k k s.1 mw s.2 set = (p', v) →
+    (v = VKnown ↔ set_ok s.1 k set ∧ ∀ t, t ∈ set → ∃ u, u ∈ reported mw s ∧ a_id u = a_id t).
+Proof. exact known_iff_all_pooled. Qed.
+Print Assumptions C14_known_iff_all_pooled.
+
+(** For every id, each lookup returns the pooled transaction of its kind with that id — the
+    only reported transaction with that id — or absence; it never panics ([lres] has a
+    [LPanic] outcome, which is excluded) and never returns another transaction. *)
+Theorem C14_lookup_exact :
+  ∀ mw L0 ops id,
+    let s := nrun mw L0 ops in
+    (match lookup_v1 s.1 mw s.2 id with
+     | LFound t => t ∈ pool_transactions s.1 mw s.2 ∧ a_id t = id ∧ a_v2 t = false ∧
+                   ∀ t', t' ∈ reported mw s → a_id t' = id → t' = t
+     | LAbsent => ∀ t, t ∈ pool_transactions s.1 mw s.2 → a_id t ≠ id
+     | LPanic => False
+     end) ∧
+    (match lookup_v2 s.1 mw s.2 id with
+     | LFound t => t ∈ v2_pool_transactions s.1 mw s.2 ∧ a_id t = id ∧ a_v2 t = true ∧
+                   ∀ t', t' ∈ reported mw s → a_id t' = id → t' = t
+     | LAbsent => ∀ t, t ∈ v2_pool_transactions s.1 mw s.2 → a_id t ≠ id
+     | LPanic => False
+     end).
 Proof. exact lookup_exact. Qed.
 Print Assumptions C14_lookup_exact.
+
+(** Findings, kept about the code before the repairs (separately defined functions).
+    F1: a v2 id given to PoolTransaction indexes the v1 slice with a v2 position: a panic, or
+    a different transaction reported as found (and symmetrically for V2PoolTransaction). *)
+Theorem C14_lookup_prefix_refuted :
+  (let s := nrun exMW exL ex_ops in lookup_v1_prefix s.1 exMW s.2 3 = LPanic) ∧
+  (let s := nrun exMW exL ex_ops in ∃ t, lookup_v1_prefix s.1 exMW s.2 2 = LFound t ∧ a_id t ≠ 2) ∧
+  (let s := nrun exMW exL ex_ops in ∃ t, lookup_v2_prefix s.1 exMW s.2 1 = LFound t ∧ a_id t ≠ 1).
+Proof. exact lookup_prefix_refuted. Qed.
+Print Assumptions C14_lookup_prefix_refuted.
+
+(** F2: a set whose second member conflicts with the pool was refused, yet its first member
+    stayed in the pool; the repaired function leaves the list unchanged. *)
+Theorem C14_add_prefix_refuted :
+  let s := nrun exMW exL ex_ops in
+  let q := revalidate s.1 exMW s.2 in
+  (add_v1_prefix s.1 exMW s.2 [tD; tE]).2 = VErr ∧
+  txns (add_v1_prefix s.1 exMW s.2 [tD; tE]).1 = txns q ++ [tD] ∧
+  (add_v1 s.1 exMW s.2 [tD; tE]).2 = VErr ∧ txns (add_v1 s.1 exMW s.2 [tD; tE]).1 = txns q.
+Proof. exact add_prefix_refuted. Qed.
+Print Assumptions C14_add_prefix_refuted.
